@@ -25,7 +25,8 @@ RULE = ("case = random functor configuration (object images of length 0-3, box "
         "composable pair and a third diagram (daggered boxes, swaps, cups, caps, "
         "adjoint types).  Non-trivial = some object image has length != 1 and "
         "the diagrams have >= 3 boxes; distinct by the repr of diagrams and "
-        "object map.")
+        "object map."
+        "  Also: re-entrant box maps (macro boxes) and one functor object whose maps are changed in place between two rounds.")
 SIZES = {"quick": (16, 110), "thorough": (16, 3000)}
 TIMEOUT = {"quick": 600, "thorough": 5400}
 COVER = {"discopy.cat:Functor.__call__": 0.75,
